@@ -122,3 +122,13 @@ func (r *Recorder) ByTag() map[int][]StatEv {
 	}
 	return out
 }
+
+// MethodOf returns the method TagRPC was given for a tag ("" for an unknown tag).
+func (r *Recorder) MethodOf(tag int) string {
+	r.mu.Lock()
+	defer r.mu.Unlock()
+	if tag < 1 || tag > len(r.tags) {
+		return ""
+	}
+	return r.tags[tag-1]
+}
